@@ -1,4 +1,16 @@
 import Mp.ProofsFn
-/-! C17 — property theorems (proved in the imported modules; statements are checked there, axioms audited here). -/
+import Mp.ProofsArr
+/-! C17 — array functions return the right element, count and aggregate: property theorems. -/
 #print axioms Mp.count_spec
 #print axioms Mp.asArray_spec
+#print axioms Mp.first_spec
+#print axioms Mp.last_spec
+#print axioms Mp.first_empty
+#print axioms Mp.last_empty
+#print axioms Mp.index_spec
+#print axioms Mp.index_out_of_range
+#print axioms Mp.index_negative
+#print axioms Mp.index_fractional
+#print axioms Mp.first_eq_index0
+#print axioms Mp.last_eq_index
+#print axioms Mp.any_spec
